@@ -8,6 +8,12 @@ COMMON_TRUSTED = [
 ]
 
 CONF = {
+    "C16": {
+        "n": {"quick": 900, "thorough": 12000},
+        "shard": 900,
+        "trusted_base": ["magiconair/properties parsing (escapes, continuation lines) is external: the property restricts round trips to values that need no escaping"],
+        "assumptions": ["path-safe key segments; plain string values without escapes"],
+    },
     "C11": {
         "n": {"quick": 2400, "thorough": 16000},
         "shard": 1200,
